@@ -76,6 +76,8 @@ def judge(rep, name, spec, cfg, trace_file, n_expected, sig_of=None, workers=2, 
         rec = recs.get(i)
         cl = sorted(str(c) for c in clauses) if isinstance(clauses, (set, frozenset, tuple, list)) else [str(clauses)]
         sig = sig_of(rec, cl) if sig_of else "%s:%s" % (name, "+".join(cl))
+        if sig is None:
+            continue                  # the clauses belong to another property's check (shared judge)
         rep.violation(sig, "recorded execution rejected by %s, failing clause(s) %s: %s" % (spec, cl, _short(rec)),
                       case={"record": rec, "clauses": cl, "judge": spec})
     return len(seen)
